@@ -554,6 +554,12 @@ var globalAssumptions = []string{
 }
 
 var propAssumptions = map[string][]string{
+	"C17": {
+		"scope (partial): Engine.send (remote branch), Remote.Send/Start/Stop, streamRouter.Receive/deliverStream/handleTerminateStream, streamWriter.Shutdown/PID; nothing about TCP, drpc, dialing, retry timing or cross-node ordering is decided",
+		"trusted contracts: newStreamWriter, Engine.Spawn, DRPCRegisterRemote; library calls (net, tls, drpcmux, drpcserver, sync.WaitGroup) have no effect on repository heap and do not panic",
+		"router, writer, Remote fields and the router's address table are not written by code reached through Engine.SpawnProc/Send",
+		"no interleaving of concurrent Remote.Start/Stop calls is considered (each runs to completion)",
+	},
 	"C15": {
 		"scope: lookupTypeName, lookupPIDs, streamWriter.Invoke, ProtoSerializer.TypeName/Serialize; the inbound half (streamReader.Receive) is C16; the round trip is their composition up to LookupKey equality",
 		"hk (xxh3.Hash) is collision-free on distinct byte strings; PID.LookupKey() == hk(Address ++ ID) (trusted contract)",
